@@ -3,7 +3,7 @@ LEVEL = "proof"
 TITLE = "Both storage back-ends behave as one ordered-mailbox model under any history"
 DESIGN_REF = "DESIGN.md §4 C07"
 TECHNIQUE = "machine-checked proof in Coq + model/code correspondence check"
-LEVEL_TEXT = "proof: both back-end models refine the abstract ordered-mailbox store on EVERY history, observations and events by handle — the memory-store model for every cap and size limit (cap loop with first/last and the size enforcer as coded; its crash outcome is unreachable), the file-store model for every cap under the id-freshness hypothesis, which is itself derived from the environment assumption 'fewer than 10 000 deliveries per wall-clock second'; hence backends_equivalent for every cap, and list_oldest_first, latest_is_last, ids_not_reused, read_back_as_written, missing_is_not_exist, remove_only_named. The tie of the models to /repo is the correspondence check (1000 histories per run on the real stores; the verdict is the extracted spec applied to what the implementation answered)."
+LEVEL_TEXT = "proof: both back-end models refine the abstract ordered-mailbox store on EVERY history, observations and events by handle — the memory-store model for every cap and size limit (cap loop with first/last and the size enforcer as coded; its crash outcome is unreachable), the file-store model for every cap under the id-freshness hypothesis, which is itself derived from the environment assumption 'fewer than 10 000 deliveries per wall-clock second'; hence backends_equivalent for every cap, and list_oldest_first, latest_is_last, ids_not_reused, read_back_as_written, missing_is_not_exist, remove_only_named. The id generation of the file store where fix 0010 lives (hasID loop on taken candidate ids, incl. the counter wrap 9999->0000) is compared with FileStore.gen_loop by the collide stream (ids planted in the on-disk index). The tie of the models to /repo is the correspondence check (1000 histories per run on the real stores; the verdict is the extracted spec applied to what the implementation answered)."
 LEVEL_NOTE = 'models: coq/Model/MemStore.v, FileStore.v (as coded after fixes 0003 0004 0005 0006 0010), StoreSpec.v; tie to /repo: go/cmd/c07 runs the same histories on the real mem and file stores, the verdict is StoreSpec.run_spec applied to what the implementation answered'
 RULE = ("random operation histories (4-60 ops, 1-5 mailboxes incl. names sharing a 12-bit SHA-1 prefix, '@' and special "
         "characters; missing / not-yet-issued / bogus / 'latest' handles, double removes, purge-then-latest) on a fresh real "
@@ -15,6 +15,8 @@ NOT_PROVED = []
 
 
 def nontrivial(kind, ins, outs):
+    if kind == "collide":   # at least one candidate id is taken
+        return len(ins) == 2 and ins[0] != "0"
     ops = ins[4].split(",") if len(ins) > 4 else []
     return any(o.startswith("a") for o in ops) and any(o[0] in "gsr" for o in ops)
 
